@@ -188,3 +188,62 @@ Definition tabix_accepts (ls : list tline) : bool := tabix_walk [] None ls.
 (* haptools index --no-sort on a file whose data lines are [ls] *)
 Definition index_nosort (guarded : bool) (ls : list tline) : res files :=
   index_tail guarded (tabix_accepts ls).
+
+(* ---- "reported": what a run prints depends on its own verbosity only ------- *)
+
+(* haptools/logging.py, getLogger(name, level): logging.getLogger("haptools." + name) - ONE logger
+   object per name for the life of the process -, logger.setLevel(level), then a NEW console
+   handler (logging.StreamHandler() = whatever sys.stderr is at that moment) with the same
+   level is added to the logger's handlers.  The command line calls it with the -v level
+   (default INFO); an entry point that is handed no logger calls it with ERROR.
+   Levels: NOTSET 0, DEBUG 10, INFO 20, WARNING 30, ERROR 40, CRITICAL 50. *)
+Record handler := mkh { h_level : Z; h_stream : Z }.
+Record logger := mklg { lg_level : Z; lg_handlers : list handler }.
+(* the logger objects of the process, by (interned) name; the first binding of a name counts *)
+Definition loggers := list (Z * logger).
+(* one getLogger call: the name, the level, and which stream sys.stderr is at that moment *)
+Record call := mkcall { cl_name : Z; cl_level : Z; cl_stream : Z }.
+
+Definition fresh_logger : logger := mklg 0 [].
+Fixpoint lookup (n : Z) (st : loggers) : logger :=
+  match st with
+  | [] => fresh_logger
+  | (m, l) :: r => if m =? n then l else lookup n r
+  end.
+
+Definition handler_of (c : call) : handler := mkh (cl_level c) (cl_stream c).
+
+(* [reuse = false]: the code as it is.  [reuse = true]: the variant "a logger that already has
+   a handler is returned as it is (after setLevel)", meant to avoid duplicated lines *)
+Definition get_logger (reuse : bool) (st : loggers) (c : call) : loggers :=
+  let l := lookup (cl_name c) st in
+  let hs := match lg_handlers l with
+            | [] => [handler_of c]
+            | h :: t => if reuse then h :: t else (h :: t) ++ [handler_of c]
+            end in
+  (cl_name c, mklg (cl_level c) hs) :: st.
+
+(* the state a process is in after the getLogger calls [hist], oldest first *)
+Definition process (reuse : bool) (hist : list call) : loggers := fold_left (get_logger reuse) hist [].
+
+(* Logger.getEffectiveLevel: NOTSET defers to the parents; no level is ever set on "haptools",
+   [root] is the level of the root logger (WARNING unless the embedding program changed it) *)
+Definition effective (root l : Z) : Z := if l =? 0 then root else l.
+
+(* a message of level [r] logged on [l]: a record is created when r reaches the effective level, and
+   every handler whose own level r reaches writes it to its own stream; how often does it appear on
+   the stream [s]? *)
+Definition written (root : Z) (l : logger) (s r : Z) : Z :=
+  if effective root (lg_level l) <=? r
+  then lenZ (filter (fun h => (h_level h <=? r) && (h_stream h =? s)) (lg_handlers l))
+  else 0.
+
+(* a run: the getLogger call [c] made after the calls [hist] of the same process, then a message of
+   level [r] on that logger; it is shown when it appears on the stream the run's user watches *)
+Definition run_written (reuse : bool) (root : Z) (hist : list call) (c : call) (r : Z) : Z :=
+  written root (lookup (cl_name c) (get_logger reuse (process reuse hist) c)) (cl_stream c) r.
+Definition run_shows (reuse : bool) (root : Z) (hist : list call) (c : call) (r : Z) : bool :=
+  0 <? run_written reuse root hist c r.
+
+(* what a run with verbosity [v] shows, as a function of that verbosity alone *)
+Definition shows (root v r : Z) : bool := effective root v <=? r.
